@@ -2122,6 +2122,10 @@ func init() {
 			if shard == 0 {
 				emit(metaSlowScenario(false))
 			}
+			// where hbase:meta and the master are: the client's own ZooKeeper reader on a fake ZooKeeper
+			for i := shard; i < 24; i += nsh {
+				emit(zkLocateCase(NewRNG(seed, fmt.Sprintf("c04zk-%d", i))))
+			}
 			if shard == 1%nsh {
 				emit(metaSlowScenario(true))
 			}
